@@ -159,10 +159,31 @@ Qed.
 Print Assumptions c16_delete_prediction_refuted.
 
 (* the strongest statement proved: deleting prediction p from the processing order
-   (o1 ++ p :: o2) of a frame.  If p was unmatched, or no prediction is processed
-   after it (lowest score), the number of pairs with OKS >= t does not grow and the
-   number of gt instances is unchanged — for every match-score threshold t.
-   The excluded case is exactly selector_F6 (p matched and o2 <> []). *)
+   (o1 ++ p :: o2) of a frame.  Unless p was matched to a gt instance g for which some
+   prediction processed later (in o2) is eligible (OKS > match threshold) — exactly
+   selector_F6 — the number of pairs with OKS >= t does not grow and the number of gt
+   instances (pairs + missed) is unchanged, for every match-score threshold t. *)
+Definition selector_F6 (M : smatrix) (thr : Q) (p : nat) (o2 : list nat) (ms : list mpair) : Prop :=
+  exists g v q, In (g, p, v) ms /\ In q o2 /\ ~ ineligible thr (mget M g q).
+
+Theorem c16_delete_prediction_partial : forall M thr o1 p o2 avail t ms missed ms' missed',
+  match_loop M thr (o1 ++ p :: o2) avail = (ms, missed) ->
+  match_loop M thr (o1 ++ o2) avail = (ms', missed') ->
+  ~ selector_F6 M thr p o2 ms ->
+  (count_ge t (map oks_of ms') <= count_ge t (map oks_of ms))%nat /\
+  (length ms' + length missed' = length ms + length missed)%nat.
+Proof.
+  intros M thr o1 p o2 avail t ms missed ms' missed' H H' Hsel.
+  apply (delete_prediction_partial_narrow M thr o1 p o2 avail t ms missed ms' missed' H H').
+  intros g v Hin q Hq. unfold ineligible. destruct (mget M g q) as [x|] eqn:E; [|exact I].
+  destruct (Qlt_le_dec thr x) as [Hlt|Hle]; [|exact Hle].
+  exfalso. apply Hsel. exists g, v, q. split; [exact Hin|]. split; [exact Hq|].
+  rewrite E. cbn. apply Qlt_not_le. exact Hlt.
+Qed.
+Print Assumptions c16_delete_prediction_partial.
+
+(* corollary in the words of the task: deleting an unmatched prediction, or the one
+   processed last (lowest score), never increases recall *)
 Theorem c16_delete_unmatched_or_last_partial : forall M thr o1 p o2 avail t ms missed ms' missed',
   match_loop M thr (o1 ++ p :: o2) avail = (ms, missed) ->
   match_loop M thr (o1 ++ o2) avail = (ms', missed') ->
